@@ -13,12 +13,14 @@ theorem reset_wiring (s : SlowStochastic F) (fs' : FastStochastic F)
     s.reset = some { fast_stochastic := fs',
                      ema := { s.ema with current := Scalar.lit 0 0, is_new := true } } := by
   unfold reset
+  try simp only [gen_helper]
   simp [h, ExponentialMovingAverage.reset_eq']
 
 /-- `reset` rebuilds exactly the state `new` builds -/
 theorem reset_eq (s : SlowStochastic F) (h : WF s) :
     s.reset = some (fresh s.fast_stochastic.period s.ema.period) := by
   unfold reset
+  try simp only [gen_helper]
   simp [FastStochastic.reset_eq _ h.fast, ExponentialMovingAverage.reset_eq _ h.ema, fresh]
 
 theorem reset_wf (s : SlowStochastic F) (h : WF s) :
